@@ -54,129 +54,139 @@ def main(prop, tier, only=None, engine=None):
     samples = []
     k_results = []
     m_results = []
-    checks_discharged = 0
-    covers_sat = 0
-    solver_time = 0.0
     partial = bool(only or engine)
 
-    # ---------------- engine K ----------------
-    harnesses = [h for h in spec.get("k", []) if tier == "thorough" or h.get("tier", "quick") == "quick"]
-    if only:
-        pats = only.split(",")
-        harnesses = [h for h in harnesses if any(p in h["name"] for p in pats)]
-    if engine == "M":
-        harnesses = []
-    if harnesses:
-        budget = spec.get("k_budget", {}).get(tier, {})
-        jobs = budget.get("jobs", 6)
-        timeout_s = budget.get("timeout_s", 1500 if tier == "quick" else 7200)
-        mem_gb = budget.get("mem_gb", 14)
-        # harnesses are run in groups so that heavy ones do not starve memory
-        groups = {}
-        for h in harnesses:
-            groups.setdefault(h.get("group", "g0"), []).append(h)
-        for gname in sorted(groups):
-            g = groups[gname]
-            gj = min(jobs, g[0].get("jobs", jobs))
-            res, wall, log, out = K.run_harnesses(prop, [h["name"] for h in g], gj,
-                                                  g[0].get("timeout_s", timeout_s), g[0].get("mem_gb", mem_gb),
-                                                  tag="k-%s-%s" % (tier, gname), ignore={h["name"]: h.get("ignore_failed") for h in g})
-            for h, r in zip(g, res):
-                r["spec"] = h
-                k_results.append(r)
-                expect = h.get("expect", "pass")   # "pass" | "finding" (a listed known finding must still show)
+    cnt = {"checks": 0, "covers": 0, "solver": 0.0}
+    m_stats_box = {}
+
+    def run_k():
+        # ---------------- engine K ----------------
+        harnesses = [h for h in spec.get("k", []) if tier == "thorough" or h.get("tier", "quick") == "quick"]
+        if only:
+            pats = only.split(",")
+            harnesses = [h for h in harnesses if any(p in h["name"] for p in pats)]
+        if engine == "M":
+            harnesses = []
+        if harnesses:
+            budget = spec.get("k_budget", {}).get(tier, {})
+            jobs = budget.get("jobs", 6)
+            timeout_s = budget.get("timeout_s", 1500 if tier == "quick" else 7200)
+            mem_gb = budget.get("mem_gb", 14)
+            # harnesses are run in groups so that heavy ones do not starve memory
+            groups = {}
+            for h in harnesses:
+                groups.setdefault(h.get("group", "g0"), []).append(h)
+            for gname in sorted(groups):
+                g = groups[gname]
+                gj = min(jobs, g[0].get("jobs", jobs))
+                res, wall, log, out = K.run_harnesses(prop, [h["name"] for h in g], gj,
+                                                      g[0].get("timeout_s", timeout_s), g[0].get("mem_gb", mem_gb),
+                                                      tag="k-%s-%s" % (tier, gname), ignore={h["name"]: h.get("ignore_failed") for h in g})
+                for h, r in zip(g, res):
+                    r["spec"] = h
+                    k_results.append(r)
+                    expect = h.get("expect", "pass")   # "pass" | "finding" (a listed known finding must still show)
+                    if r["verdict"] == "inconclusive":
+                        inconclusive.append((h["name"], r["why"]))
+                        continue
+                    cnt["checks"] += r["checks"] or 0
+                    cnt["covers"] += r["covers_sat"]
+                    cnt["solver"] += r["time_s"] or 0.0
+                    if r["verdict"] == "pass":
+                        if expect == "finding":
+                            print("NOTE: known finding no longer reproduces (stale entry?) role=%s" % h["name"])
+                        continue
+                    # ---- a failed check: details, known-finding matching, native replay
+                    failed, test_src, dlog, dout = K.detail_run(prop, h["name"], g[0].get("timeout_s", timeout_s),
+                                                                g[0].get("mem_gb", mem_gb))
+                    if not failed:
+                        inconclusive.append((h["name"], "failure could not be re-established in the detail run (see %s)" % dlog))
+                        continue
+                    real = [f for f in failed if "unwinding assertion" not in f["description"]
+                            and not any(re.search(p_, f["description"]) for p_ in (h.get("ignore_failed") or []))]
+                    unmatched = []
+                    for f in real:
+                        kf = finding_for(known, prop, "K", h["name"], f["description"])
+                        if kf:
+                            if kf not in known_hits:
+                                known_hits.append(kf)
+                        else:
+                            unmatched.append(f)
+                    if not unmatched:
+                        continue
+                    replay_path = os.path.join(REPLAYS, "%s-%s.rs" % (prop, h["name"].replace("::", "_")))
+                    with open(replay_path, "w") as fh:
+                        fh.write("// counterexample for %s found by Kani harness %s\n// failed checks:\n" % (prop, h["name"]))
+                        for f in unmatched:
+                            fh.write("//   %s @ %s\n" % (f["description"], f["location"]))
+                        fh.write("// replay: append this test to /verif/kani/src/%s.rs and run `cargo kani playback -Z concrete-playback`\n" % h["name"].split("::")[0])
+                        fh.write(test_src or "// (no concrete playback test was generated)\n")
+                    reproduced, plog, msg = K.native_playback(prop, h["name"], test_src)
+                    pure_ub = all(("dereference failure" in f["description"] or "pointer" in f["description"]) and
+                                  "assertion failed" not in f["description"] for f in unmatched)
+                    if reproduced:
+                        for f in unmatched:
+                            violations.append((h["name"], f["description"], replay_path))
+                    elif pure_ub:
+                        # memory-safety counterexamples (use after free etc.) have no guaranteed native symptom:
+                        # CBMC's trace is the evidence; reported as violation with the trace file
+                        for f in unmatched:
+                            violations.append((h["name"], f["description"] + " [memory-safety check; native replay shows no symptom: %s]" % msg, replay_path))
+                    else:
+                        inconclusive.append((h["name"], "counterexample did not reproduce natively (%s): %s" % (msg, "; ".join(f["description"] for f in unmatched))))
+            for r in k_results:
+                h = r["spec"]
+                samples.append({"engine": "K", "harness": h["name"], "instantiation": h.get("inst", ""),
+                                "bounds": h.get("bounds", ""), "oracle": h.get("oracle", ""),
+                                "verdict": r["verdict"], "checks": r["checks"], "cover_witnesses_satisfied": r["covers_sat"],
+                                "cover_witnesses": r["covers"], "cbmc_time_s": r["time_s"], "stubs": h.get("stubs", []),
+                                "ignored_tool_artefacts": h.get("ignore_failed", []), "why": r["why"]})
+
+
+    def run_m():
+        # ---------------- engine M ----------------
+        mq = [q for q in spec.get("m", []) if tier == "thorough" or q.get("tier", "quick") == "quick"]
+        if only:
+            pats = only.split(",")
+            mq = [q for q in mq if any(p in q["name"] for p in pats)]
+        if engine == "K":
+            mq = []
+        if mq:
+            try:
+                import mir_engine
+                m_out = mir_engine.run_queries(prop, mq, tier, seed())
+            except Exception as e:  # fail closed
+                traceback.print_exc()
+                m_out = {"results": [], "error": "%s: %s" % (type(e).__name__, e)}
+            if m_out.get("error"):
+                inconclusive.append(("engine-M", m_out["error"]))
+            m_stats_box["s"] = m_out.get("stats", {})
+            for r in m_out.get("results", []):
+                m_results.append(r)
+                cnt["solver"] += r.get("solver_s", 0.0)
                 if r["verdict"] == "inconclusive":
-                    inconclusive.append((h["name"], r["why"]))
-                    continue
-                checks_discharged += r["checks"] or 0
-                covers_sat += r["covers_sat"]
-                solver_time += r["time_s"] or 0.0
-                if r["verdict"] == "pass":
-                    if expect == "finding":
-                        print("NOTE: known finding no longer reproduces (stale entry?) role=%s" % h["name"])
-                    continue
-                # ---- a failed check: details, known-finding matching, native replay
-                failed, test_src, dlog, dout = K.detail_run(prop, h["name"], g[0].get("timeout_s", timeout_s),
-                                                            g[0].get("mem_gb", mem_gb))
-                if not failed:
-                    inconclusive.append((h["name"], "failure could not be re-established in the detail run (see %s)" % dlog))
-                    continue
-                real = [f for f in failed if "unwinding assertion" not in f["description"]
-                        and not any(re.search(p_, f["description"]) for p_ in (h.get("ignore_failed") or []))]
-                unmatched = []
-                for f in real:
-                    kf = finding_for(known, prop, "K", h["name"], f["description"])
+                    inconclusive.append((r["name"], r.get("why", "")))
+                elif r["verdict"] == "violation":
+                    kf = finding_for(known, prop, "M", r["name"], r.get("symptom", ""))
                     if kf:
                         if kf not in known_hits:
                             known_hits.append(kf)
                     else:
-                        unmatched.append(f)
-                if not unmatched:
-                    continue
-                replay_path = os.path.join(REPLAYS, "%s-%s.rs" % (prop, h["name"].replace("::", "_")))
-                with open(replay_path, "w") as fh:
-                    fh.write("// counterexample for %s found by Kani harness %s\n// failed checks:\n" % (prop, h["name"]))
-                    for f in unmatched:
-                        fh.write("//   %s @ %s\n" % (f["description"], f["location"]))
-                    fh.write("// replay: append this test to /verif/kani/src/%s.rs and run `cargo kani playback -Z concrete-playback`\n" % h["name"].split("::")[0])
-                    fh.write(test_src or "// (no concrete playback test was generated)\n")
-                reproduced, plog, msg = K.native_playback(prop, h["name"], test_src)
-                pure_ub = all(("dereference failure" in f["description"] or "pointer" in f["description"]) and
-                              "assertion failed" not in f["description"] for f in unmatched)
-                if reproduced:
-                    for f in unmatched:
-                        violations.append((h["name"], f["description"], replay_path))
-                elif pure_ub:
-                    # memory-safety counterexamples (use after free etc.) have no guaranteed native symptom:
-                    # CBMC's trace is the evidence; reported as violation with the trace file
-                    for f in unmatched:
-                        violations.append((h["name"], f["description"] + " [memory-safety check; native replay shows no symptom: %s]" % msg, replay_path))
+                        violations.append((r["name"], r.get("symptom", ""), r.get("replay", "")))
                 else:
-                    inconclusive.append((h["name"], "counterexample did not reproduce natively (%s): %s" % (msg, "; ".join(f["description"] for f in unmatched))))
-        for r in k_results:
-            h = r["spec"]
-            samples.append({"engine": "K", "harness": h["name"], "instantiation": h.get("inst", ""),
-                            "bounds": h.get("bounds", ""), "oracle": h.get("oracle", ""),
-                            "verdict": r["verdict"], "checks": r["checks"], "cover_witnesses_satisfied": r["covers_sat"],
-                            "cover_witnesses": r["covers"], "cbmc_time_s": r["time_s"], "stubs": h.get("stubs", []),
-                            "ignored_tool_artefacts": h.get("ignore_failed", []), "why": r["why"]})
+                    cnt["checks"] += r.get("queries", 1)
+                    cnt["covers"] += r.get("witnesses", 0)
+                samples.append({k: v for k, v in r.items() if k in ("name", "verdict", "threads", "bounds", "oracle", "functions",
+                                                                    "steps", "cnf_vars", "cnf_clauses", "solver_s", "witness_trace",
+                                                                    "queries", "witnesses", "why", "symptom", "replayed")})
 
-    # ---------------- engine M ----------------
-    mq = [q for q in spec.get("m", []) if tier == "thorough" or q.get("tier", "quick") == "quick"]
-    if only:
-        pats = only.split(",")
-        mq = [q for q in mq if any(p in q["name"] for p in pats)]
-    if engine == "K":
-        mq = []
-    m_stats = {}
-    if mq:
-        try:
-            import mir_engine
-            m_out = mir_engine.run_queries(prop, mq, tier, seed())
-        except Exception as e:  # fail closed
-            traceback.print_exc()
-            m_out = {"results": [], "error": "%s: %s" % (type(e).__name__, e)}
-        if m_out.get("error"):
-            inconclusive.append(("engine-M", m_out["error"]))
-        m_stats = m_out.get("stats", {})
-        for r in m_out.get("results", []):
-            m_results.append(r)
-            solver_time += r.get("solver_s", 0.0)
-            if r["verdict"] == "inconclusive":
-                inconclusive.append((r["name"], r.get("why", "")))
-            elif r["verdict"] == "violation":
-                kf = finding_for(known, prop, "M", r["name"], r.get("symptom", ""))
-                if kf:
-                    if kf not in known_hits:
-                        known_hits.append(kf)
-                else:
-                    violations.append((r["name"], r.get("symptom", ""), r.get("replay", "")))
-            else:
-                checks_discharged += r.get("queries", 1)
-                covers_sat += r.get("witnesses", 0)
-            samples.append({k: v for k, v in r.items() if k in ("name", "verdict", "threads", "bounds", "oracle", "functions",
-                                                                "steps", "cnf_vars", "cnf_clauses", "solver_s", "witness_trace",
-                                                                "queries", "witnesses", "why", "symptom", "replayed")})
+
+    # the two engines run side by side (K: a few CBMC processes; M: encoder workers + kissat portfolio)
+    import threading
+    tm = threading.Thread(target=run_m); tm.start()
+    run_k()
+    tm.join()
+    checks_discharged, covers_sat, solver_time, m_stats = cnt["checks"], cnt["covers"], cnt["solver"], m_stats_box.get("s", {})
 
     # ---------------- verdict ----------------
     for kf in known_hits:
